@@ -87,4 +87,6 @@ def obligations(tier, ctx):
         obs.append(Ob(name=f"seq{i}", params=[("a", "int"), ("b", "int")], pre=["0 <= a <= 3", "0 <= b <= 3"],
                       call=f"H.sequence_sel({sq!r}, a, b)", backend="P", timeout=200,
                       family="(c) sequences through the sender loop; session ids issued by POST 0 / POST 1 from {none, A, B, s}"))
+    from symcheck.runner import mirror
+    obs += mirror(obs, r"^(post_body(0|1|7|9|11|12)|post_sse(0|3|7)|post_exc1|seq0|session_body0)$", "F", limit=(4 if tier == "quick" else None))
     return obs
